@@ -3,8 +3,9 @@
    File-level model of one build storing its outputs (internal/caching/backends/fs.go Set: MkdirAll, CreateTemp,
    copy, Close, Rename; internal/caching/cas.go Write: skip when the digest is already visible; the ordering imposed by
    the output handlers and execute.go: file blobs -> tree blob -> target result).
-   Blobs: o (a file output), f1, f2 (files of a directory output), t (its tree, written after f1 and f2), and the
-   target result r (written after o and t; it references all four).  Any step may be the last one before a crash
+   Blobs: o (a file output), f1, f2 (files of a directory output), t (its tree, written after f1 and f2), the target result r
+   (written after o and t; it references all four), and a second target whose output has the same digest as o: its writer o2
+   runs concurrently with o's and its result r2 references that digest.  Any step may be the last one before a crash
    (kill -9) or may fail (storage fault); a new build attempt (Restart) then runs against whatever is on disk.
    Atomic = TRUE is the implementation (temp file + rename); Atomic = FALSE writes to the final name directly and is
    the counter-model in which TLC finds torn blobs. *)
@@ -12,10 +13,14 @@ EXTENDS Naturals, FiniteSets, TLC
 
 CONSTANTS Atomic, MaxCrashes, MaxFaults
 
-Blobs == {"o", "f1", "f2", "t"}
-Items == Blobs \cup {"r"}
-Needs(i) == CASE i = "t" -> {"f1", "f2"} [] i = "r" -> {"o", "t"} [] OTHER -> {}
-RefsOfResult == Blobs
+\* "o2" is a second writer of the same digest as "o" (another target whose output has identical content, stored concurrently);
+\* its result "r2" references that digest.  Name(i) is the file name an item is stored under.
+Blobs == {"o", "o2", "f1", "f2", "t"}
+Results == {"r", "r2"}
+Items == Blobs \cup Results
+Name(i) == IF i = "o2" THEN "o" ELSE i
+Needs(i) == CASE i = "t" -> {"f1", "f2"} [] i = "r" -> {"o", "t"} [] i = "r2" -> {"o2"} [] OTHER -> {}
+Refs(r) == IF r = "r" THEN {"o", "f1", "f2", "t"} ELSE {"o"}
 
 VARIABLES step,      \* per item: idle | temp | half | full | closed | done | failed
           visible,   \* per item: "absent" | "partial" | "complete"   (what a reader finds under the final name)
@@ -24,17 +29,18 @@ VARIABLES step,      \* per item: idle | temp | half | full | closed | done | fa
           crashes, faults
 vars == <<step, visible, tmps, attempt, crashes, faults>>
 
-Init == /\ step = [i \in Items |-> "idle"] /\ visible = [i \in Items |-> "absent"]
+Names == {Name(i) : i \in Items}
+Init == /\ step = [i \in Items |-> "idle"] /\ visible = [n \in Names |-> "absent"]
         /\ tmps = 0 /\ attempt = "running" /\ crashes = 0 /\ faults = 0
 
 Ready(i) == attempt = "running" /\ \A n \in Needs(i) : step[n] = "done"
 \* Cas.Write skips blobs that are already visible (the result is always written)
-Skip(i) == /\ Ready(i) /\ step[i] = "idle" /\ i \in Blobs /\ visible[i] # "absent"
+Skip(i) == /\ Ready(i) /\ step[i] = "idle" /\ i \in Blobs /\ visible[Name(i)] # "absent"
            /\ step' = [step EXCEPT ![i] = "done"] /\ UNCHANGED <<visible, tmps, attempt, crashes, faults>>
-CreateTemp(i) == /\ Ready(i) /\ step[i] = "idle" /\ (i \in Blobs => visible[i] = "absent")
+CreateTemp(i) == /\ Ready(i) /\ step[i] = "idle" /\ (i \in Blobs => visible[Name(i)] = "absent")
                  /\ step' = [step EXCEPT ![i] = "temp"]
                  /\ IF Atomic THEN tmps' = tmps + 1 /\ UNCHANGED visible
-                              ELSE visible' = [visible EXCEPT ![i] = "partial"] /\ UNCHANGED tmps
+                              ELSE visible' = [visible EXCEPT ![Name(i)] = "partial"] /\ UNCHANGED tmps
                  /\ UNCHANGED <<attempt, crashes, faults>>
 Copy1(i) == /\ attempt = "running" /\ step[i] = "temp" /\ step' = [step EXCEPT ![i] = "half"]
             /\ UNCHANGED <<visible, tmps, attempt, crashes, faults>>
@@ -44,7 +50,7 @@ Close(i) == /\ attempt = "running" /\ step[i] = "full" /\ step' = [step EXCEPT !
             /\ UNCHANGED <<visible, tmps, attempt, crashes, faults>>
 Rename(i) == /\ attempt = "running" /\ step[i] = "closed"
              /\ step' = [step EXCEPT ![i] = "done"]
-             /\ visible' = [visible EXCEPT ![i] = "complete"]
+             /\ visible' = [visible EXCEPT ![Name(i)] = "complete"]
              /\ tmps' = IF Atomic THEN tmps - 1 ELSE tmps
              /\ UNCHANGED <<attempt, crashes, faults>>
 \* a storage fault in any step of a Set: the temp file is removed (deferred os.Remove), the build attempt fails
@@ -56,7 +62,7 @@ Fault(i) == /\ attempt = "running" /\ faults < MaxFaults /\ step[i] \in {"temp",
 \* kill -9: the process state is lost, the directory stays as it is
 Crash == /\ attempt = "running" /\ crashes < MaxCrashes
          /\ crashes' = crashes + 1 /\ attempt' = "crashed" /\ UNCHANGED <<step, visible, tmps, faults>>
-Succeed == /\ attempt = "running" /\ step["r"] = "done" /\ attempt' = "succeeded" /\ UNCHANGED <<step, visible, tmps, crashes, faults>>
+Succeed == /\ attempt = "running" /\ step["r"] = "done" /\ step["r2"] = "done" /\ attempt' = "succeeded" /\ UNCHANGED <<step, visible, tmps, crashes, faults>>
 \* the next build on the same cache
 Restart == /\ attempt \in {"crashed", "failed"}
            /\ attempt' = "running" /\ step' = [i \in Items |-> "idle"]
@@ -68,10 +74,10 @@ Spec == Init /\ [][Next]_vars
 FairSpec == Spec /\ WF_vars(Next)
 
 \* every blob visible under a digest has exactly that content
-BlobIntegrity == \A b \in Items : visible[b] # "partial"
+BlobIntegrity == \A n \in Names : visible[n] # "partial"
 \* a visible result references only visible (complete) blobs
-ResultClosure == visible["r"] = "complete" => \A b \in RefsOfResult : visible[b] = "complete"
-NoTornResult == visible["r"] # "partial"
+ResultClosure == \A r \in Results : visible[r] = "complete" => \A b \in Refs(r) : visible[b] = "complete"
+NoTornResult == \A r \in Results : visible[r] # "partial"
 \* with bounded crashes and faults a build eventually succeeds, re-executing what was lost
 EventuallySucceeds == <>(attempt = "succeeded")
 =============================================================================
